@@ -305,6 +305,14 @@ def build_case(spec, dom, cx):
         items = [letters["l"] if it == "l" else (slice(None) if it == ":" else it) for it in spec["items"]]
         built = T[tuple(items)]
         return (built,) + spec_getitem(cx, T, items) + ([a, b],)
+    if k == "getitem_sum":
+        # indexing a tensor-valued sum with (among others) the very Index object the sum binds
+        letters = {ch: I["ijkl".index(ch)] for ch in "ijkl"}
+        j = letters["j"]
+        S_ = a[j] * b[(j,) + (slice(None),) * (len(b.ufl_shape) - 1)]       # sum_j a[j] b[j, ...]: shape b.shape[1:]
+        items = [letters[it] if isinstance(it, str) and it in letters else (slice(None) if it == ":" else it) for it in spec["items"]]
+        built = S_[tuple(items)]
+        return (built,) + spec_getitem(cx, S_, items) + ([a, b, S_],)
     if k == "as_tensor":
         # as_tensor(A[perm of indices], (i,j,..)) : every permutation pair
         p_in, p_out = spec["pin"], spec["pout"]
@@ -733,6 +741,9 @@ def specs(tier):
             for sh in shs:
                 for fa in ("coef", "sum", "list", "ctperm") if len(sh) <= 2 else ("coef",):
                     add(case="list_of_indexed", which=which, shapes=(sh,), forms=(fa,), complex=cxm)
+        for shb, pats in (((2, 2), [("j",), ("i",), (1,)]), ((2, 2, 3), [("j", "k"), ("i", "j"), (1, "j"), ("j", ":"), ("j", 2)])):
+            for items in pats:
+                add(case="getitem_sum", shapes=((2,), shb), forms=("coef", "coef"), items=items, complex=cxm)
         # constructors that return an existing object of their own class
         for which, shs in (("abs_abs", ((), (2,))), ("abs_conj_abs", ((),)), ("det_det", ((2, 2),)), ("inner_inner_one", ((2,), (2,))),
                            ("outer_one_outer", ((2,), (3,))), ("conj_conj", ((), (2,))), ("neg_neg", ((), (2,))),
